@@ -20,7 +20,14 @@ enum Act { Next, NextBack, Len, Observe, Drop,
     /// `nth(k)` / `nth_back(k)` with k >= 1: k elements are consumed (dropped) BY THE ITERATOR, the next one is yielded
     Nth(u8), NthBack(u8),
     /// consuming adaptors that end the iterator's life: `count()`, `last()`, `rev().collect()`
-    Count, Last, RevCollect }
+    Count, Last, RevCollect,
+    /// (second audit) `fold` / `rfold` called directly (an implementation may override them apart from `next`/`next_back`), and the
+    /// same with a closure that panics on the SECOND element it receives: the iterator is then dropped by unwinding in the middle
+    /// of the traversal ("dropping it at any moment")
+    Fold, RFold, FoldPanic, RFoldPanic }
+/// skip count code 255 stands for `usize::MAX` (cursor arithmetic of an overriding `nth` must not overflow)
+const K_MAX: u8 = 255;
+fn skip_of(k: u8) -> usize { if k == K_MAX { usize::MAX } else { k as usize } }
 
 /// Build a fresh real iterator over fresh tokens 0..N, pull `f` from the front and `b` from the back,
 /// checking every pull against the reference (a deque of ids). Returns the iterator and the pulled tokens.
@@ -43,12 +50,45 @@ fn ledger_balanced(n: usize) -> Result<(), (&'static str, String)> {
     Ok(())
 }
 
+/// (second audit) The state LEFT BEHIND by a pull beyond exhaustion: the other end, the same end again, the length reports and the
+/// observation set must all still see an empty live range (a cursor bumped before the emptiness test only shows on the second call).
+fn after_none<I>(it: &mut I, first: &str) -> Result<(), (&'static str, String)>
+where I: DoubleEndedIterator<Item = Tok> + ExactSizeIterator + Debug + PartialEq + Hash {
+    for round in 0..2 {
+        if let Some(t) = it.next_back() { return Err(("wrong-element-from-next_back", format!("exhausted iterator: after {}() = None (probe round {}), next_back() yields element {}", first, round, t.id))); }
+        if let Some(t) = it.next() { return Err(("wrong-element-from-next", format!("exhausted iterator: after {}() = None (probe round {}), next() yields element {}", first, round, t.id))); }
+        let (l, h) = (it.len(), it.size_hint());
+        if l != 0 || h != (0, Some(0)) { return Err(("wrong-length-report", format!("exhausted iterator: after {}() = None (probe round {}): len() = {}, size_hint() = {:?}", first, round, l, h))); }
+    }
+    tok::set_watch(true);
+    let _ = format!("{:?}", it);
+    #[allow(clippy::eq_op)] let _ = *it == *it;
+    let mut h = DefaultHasher::new(); it.hash(&mut h); let _ = h.finish();
+    tok::set_watch(false);
+    if let Some(fl) = tok::faults().into_iter().next() { return Err(("safe-observation-reads-moved-out-element", format!("exhausted iterator after {}() = None: {}", first, fl))); }
+    Ok(())
+}
+
 /// One transition on the real iterator, compared with the reference model.
 fn step<V>(f: u8, b: u8, a: Act) -> S
 where V: VecN<Tok> + IntoIterator<Item = Tok>, V::IntoIter: DoubleEndedIterator + ExactSizeIterator + Debug + PartialEq + Hash {
     let n = V::N;
     let (fu, bu) = (f as usize, b as usize);
     let bad = |(class, detail): (&'static str, String)| S::Bad { class, detail };
+    // a panicking closure makes `fold` unwind with the iterator inside it; if the iterator's cursors are already wrong, its Drop
+    // panics during that unwinding and the process aborts without a verdict.  So the panicking variants run only in states where
+    // the same walk without the panic (fold, then the two pulls and the drop that the panicking walk performs) is clean; otherwise
+    // that earlier violation is the verdict for this transition.
+    if matches!(a, Act::FoldPanic | Act::RFoldPanic) {
+        let back = matches!(a, Act::RFoldPanic);
+        if let r @ S::Bad { .. } = step::<V>(f, b, if back { Act::RFold } else { Act::Fold }) { return r; }
+        let (mut pf, mut pb) = (f, b);
+        for _ in 0..2usize.min(V::N - fu - bu) {
+            match step::<V>(pf, pb, if back { Act::NextBack } else { Act::Next }) { r @ S::Bad { .. } => return r, _ => {} }
+            if back { pb += 1 } else { pf += 1 }
+        }
+        if let r @ S::Bad { .. } = step::<V>(pf, pb, Act::Drop) { return r; }
+    }
     let (it, mut held) = match replay::<V>(fu, bu) { Ok(x) => x, Err(e) => return bad(e) };
     // the iterator is only ever dropped explicitly: if the real code panics with its cursors out of order, unwinding must not run its
     // Drop a second time on the broken state (a panic inside a panic would abort the explorer instead of giving a verdict)
@@ -59,14 +99,14 @@ where V: VecN<Tok> + IntoIterator<Item = Tok>, V::IntoIter: DoubleEndedIterator 
     match a {
         Act::Next => {
             match (it.next(), rem) {
-                (None, 0) => {}
+                (None, 0) => { if let Err(e) = after_none(&mut *it, "next") { return bad(e); } }
                 (Some(t), r) if r > 0 && t.id as usize == fu => { tok::mark_yielded(t.id); held.push(t); next = S::Live { f: f + 1, b }; }
                 (o, _) => return bad(("wrong-element-from-next", format!("remaining {}, expected {:?}, got {:?}", rem, if rem > 0 { Some(fu) } else { None }, o.map(|t| t.id)))),
             }
         }
         Act::NextBack => {
             match (it.next_back(), rem) {
-                (None, 0) => {}
+                (None, 0) => { if let Err(e) = after_none(&mut *it, "next_back") { return bad(e); } }
                 (Some(t), r) if r > 0 && t.id as usize == n - 1 - bu => { tok::mark_yielded(t.id); held.push(t); next = S::Live { f, b: b + 1 }; }
                 (o, _) => return bad(("wrong-element-from-next_back", format!("remaining {}, got {:?}", rem, o.map(|t| t.id)))),
             }
@@ -90,11 +130,11 @@ where V: VecN<Tok> + IntoIterator<Item = Tok>, V::IntoIter: DoubleEndedIterator 
             if let Some(fl) = tok::faults().into_iter().next() { return bad(("safe-observation-reads-moved-out-element", fl)); }
         }
         Act::Nth(k) | Act::NthBack(k) => {
-            let (k, front) = (k as usize, matches!(a, Act::Nth(_)));
+            let (k, front) = (skip_of(k), matches!(a, Act::Nth(_)));
             let got = if front { it.nth(k) } else { it.nth_back(k) };
             let want = if rem > k { Some(if front { fu + k } else { n - 1 - bu - k }) } else { None };
             if got.as_ref().map(|t| t.id as usize) != want { return bad(("wrong-element-from-nth", format!("remaining {}, {}({}) gave {:?}, the reference deque gives {:?}", rem, if front { "nth" } else { "nth_back" }, k, got.map(|t| t.id), want))); }
-            let consumed = (k + 1).min(rem);
+            let consumed = k.saturating_add(1).min(rem);
             let yielded_now = got.as_ref().map(|t| t.id as usize);
             if let Some(t) = got { tok::mark_yielded(t.id); held.push(t); }
             let rem2 = rem - consumed;
@@ -131,6 +171,36 @@ where V: VecN<Tok> + IntoIterator<Item = Tok>, V::IntoIter: DoubleEndedIterator 
             drop(held); drop(kept);
             return match ledger_balanced(n) { Ok(()) => S::Dropped { f, b }, Err(e) => bad(e) };
         }
+        Act::Fold | Act::RFold | Act::FoldPanic | Act::RFoldPanic => {
+            let (back, boom) = (matches!(a, Act::RFold | Act::RFoldPanic), matches!(a, Act::FoldPanic | Act::RFoldPanic));
+            let mut live: Vec<usize> = (fu..n - bu).collect(); if back { live.reverse(); }
+            let mut kept: Vec<Tok> = Vec::new();
+            let itv = take!(it);
+            let r = { let kept = &mut kept; catch(move || {
+                // the element is the closure's from the moment it is passed in: when the closure panics it is dropped by the closure's frame
+                let f = |(), t: Tok| { tok::mark_yielded(t.id); if boom && kept.len() == 1 { panic!("c18: fold closure failed") } kept.push(t); };
+                if back { itv.rfold((), f) } else { itv.fold((), f) }
+            }) };
+            let expect_panic = boom && rem >= 2;
+            match &r {
+                Ok(()) if expect_panic => return bad(("wrong-order-from-fold", format!("{:?} on {} remaining elements: the closure was never given a second element", a, rem))),
+                Err(Caught::Panic(m)) if expect_panic && m.contains("c18: fold closure failed") => {}
+                Ok(()) => {}
+                Err(c) => return bad(("panic", format!("{:?} in state (front {}, back {}): {:?}", a, f, b, c))),
+            }
+            let g: Vec<usize> = kept.iter().map(|t| t.id as usize).collect();
+            let w: Vec<usize> = if expect_panic { live[..1].to_vec() } else { live.clone() };
+            if g != w { return bad(("wrong-order-from-fold", format!("{:?} handed the closure {:?}, want {:?}", a, g, w))); }
+            let st = tok::states();
+            for id in 0..n {
+                let in_hand = held.iter().chain(kept.iter()).any(|t| t.id as usize == id);
+                if in_hand && st[id] == St::Dropped { return bad(("drop-drops-yielded-element", format!("element {} was yielded to the caller and dropped by the iterator as well ({:?})", id, a))); }
+                if !in_hand && st[id] != St::Dropped { return bad(("drop-leaks-unyielded-element", format!("element {} was consumed by {:?} and never dropped", id, a))); }
+            }
+            if let Some(fl) = tok::faults().into_iter().next() { return bad(("ledger-fault", format!("{:?}: {}", a, fl))); }
+            drop(held); drop(kept);
+            return match ledger_balanced(n) { Ok(()) => S::Dropped { f, b }, Err(e) => bad(e) };
+        }
         Act::Drop => {
             drop(take!(it));
             let st = tok::states();
@@ -157,7 +227,7 @@ where V: VecN<Tok> + IntoIterator<Item = Tok> + 'static, V::IntoIter: DoubleEnde
     type Action = Act;
     fn init_states(&self) -> Vec<S> { vec![S::Live { f: 0, b: 0 }] }
     fn actions(&self, s: &S, acts: &mut Vec<Act>) { if let S::Live { .. } = s {
-        acts.extend([Act::Next, Act::NextBack, Act::Len, Act::Observe, Act::Drop, Act::Count, Act::Last, Act::RevCollect]);
+        acts.extend([Act::Next, Act::NextBack, Act::Len, Act::Observe, Act::Drop, Act::Count, Act::Last, Act::RevCollect, Act::Fold, Act::RFold, Act::FoldPanic, Act::RFoldPanic]);
         for &k in &self.ks { acts.push(Act::Nth(k)); acts.push(Act::NthBack(k)); }
     } }
     fn next_state(&self, s: &S, a: Act) -> Option<S> {
@@ -171,8 +241,10 @@ where V: VecN<Tok> + IntoIterator<Item = Tok> + 'static, V::IntoIter: DoubleEnde
 
 struct McTotals { states: u64, transitions: u64, max_depth: usize, samples: Vec<Value> }
 
-/// skip counts explored for nth/nth_back: quick {1, 3}; thorough every k in 1..=N (k = N always overshoots)
-fn nth_ks(n: usize, thorough: bool) -> Vec<u8> { let v: Vec<usize> = if thorough { (1..=n).collect() } else { vec![1, 3] }; v.into_iter().map(|k| k as u8).collect() }
+/// skip counts explored for nth/nth_back: quick {0, 1, 3, usize::MAX}; thorough every k in 0..=N (k = N always overshoots) and usize::MAX
+fn nth_ks(n: usize, thorough: bool) -> Vec<u8> { let v: Vec<usize> = if thorough { (0..=n).collect() } else { vec![0, 1, 3] }; let mut v: Vec<u8> = v.into_iter().map(|k| k as u8).collect(); v.push(K_MAX); v }
+/// fixed (non-nth) actions of a live state
+const FIXED_ACTIONS: u64 = 12;
 
 fn model_check<V>(s: &Section, tot: &mut McTotals)
 where V: VecN<Tok> + IntoIterator<Item = Tok> + 'static, V::IntoIter: DoubleEndedIterator + ExactSizeIterator + Debug + PartialEq + Hash {
@@ -198,13 +270,13 @@ where V: VecN<Tok> + IntoIterator<Item = Tok> + 'static, V::IntoIter: DoubleEnde
     let n = V::N as u64;
     let expect_states = (n + 1) * (n + 2) / 2 * 2; // every (f,b) live, and its Dropped twin
     if us != expect_states { s.rep.machinery_error(format!("{}: reached {} states, the (front,back) triangle and its dropped twins have {}", V::NAME, us, expect_states)); }
-    // every live state has 8 fixed actions + 2 per skip count; dropped twins have none
-    let expect_transitions = (n + 1) * (n + 2) / 2 * (8 + 2 * ks.len() as u64);
-    if t != expect_transitions { s.rep.machinery_error(format!("{}: executed {} transitions, {} live states x {} actions = {}", V::NAME, t, (n + 1) * (n + 2) / 2, 8 + 2 * ks.len(), expect_transitions)); }
+    // every live state has 12 fixed actions (8 before the second audit + fold, rfold and their panicking twins) + 2 per skip count; dropped twins have none
+    let expect_transitions = (n + 1) * (n + 2) / 2 * (FIXED_ACTIONS + 2 * ks.len() as u64);
+    if t != expect_transitions { s.rep.machinery_error(format!("{}: executed {} transitions, {} live states x {} actions = {}", V::NAME, t, (n + 1) * (n + 2) / 2, FIXED_ACTIONS + 2 * ks.len() as u64, expect_transitions)); }
     s.evals(t, t); s.class(V::NAME);
     tot.states += us; tot.transitions += t; tot.max_depth = tot.max_depth.max(md);
     if tot.samples.len() < 3 { tot.samples.push(json!({"type": V::NAME, "n": V::N, "history": ["Next", "NextBack", "Observe", "Len", "Drop"], "reaches_state": "Dropped{f:1,b:1}"})); }
-    s.meta(V::NAME, json!({"states": us, "transitions": t, "max_depth": md, "fixpoint": true, "nth_skip_counts": ks}));
+    s.meta(V::NAME, json!({"states": us, "transitions": t, "max_depth": md, "fixpoint": true, "nth_skip_counts (255 = usize::MAX)": ks}));
 }
 
 // ---- unmerged histories (no state merging at all) -----------------------------------------------
@@ -793,7 +865,12 @@ where V: VecN<Tok> + FromIterator<Tok> + 'static {
     let site = format!("FromIterator for {}", V::NAME);
     let lens: Vec<usize> = if n <= 8 || s.thorough() { (0..=n + 2).collect() } else { vec![0, 1, n / 2, n - 1, n, n + 1, n + 2] };
     for &len in &lens {
-        for hint in [(0, Some(0)), (0, None), (1000, Some(1000)), (usize::MAX, None)] {
+        // (second audit) besides the four far-off lies: every hint in the neighbourhood of the true length and of the vector's own
+        // size N, as an exact hint (x, Some(x)), as a lower bound only (x, None) and as an upper bound only (0, Some(x)); this contains
+        // the honest exact hint, honest inexact ones (what filter / flat_map / from_fn report) and the lie "exactly N elements"
+        let mut hints: Vec<(usize, Option<usize>)> = vec![(0, Some(0)), (0, None), (1000, Some(1000)), (usize::MAX, None)];
+        for x in [1, len.saturating_sub(1), len, len + 1, n - 1, n, n + 1, 2 * n] { for h in [(x, Some(x)), (x, None), (0, Some(x)), (x, Some(usize::MAX))] { if !hints.contains(&h) { hints.push(h); } } }
+        for hint in hints {
             s.eval(true);
             let r = catch(|| {
                 tok::reset();
@@ -894,6 +971,10 @@ macro_rules! mat_views { ($s:expr, $M:ident, $n:expr, $lay:ident, $layname:expr,
     mat_view_one!(s, &site, $M, $n, $lay, $lines, $V, $as_slice, $as_mut_slice, $as_ptr, $as_mut_ptr, u32, "u32", |x: u32| 100 + x);
     mat_view_one!(s, &site, $M, $n, $lay, $lines, $V, $as_slice, $as_mut_slice, $as_ptr, $as_mut_ptr, u128, "u128", |x: u32| ((x as u128 + 1) << 100) | x as u128);
     mat_view_one!(s, &site, $M, $n, $lay, $lines, $V, $as_slice, $as_mut_slice, $as_ptr, $as_mut_ptr, [u8; 3], "[u8;3]", |x: u32| [x as u8, !(x as u8), 7]);
+    // (second audit) element sizes at the special values: zero-sized (every size test of the form `size_of::<Self>() == n * size_of::<T>()`
+    // degenerates to 0 == 0) and an element with interior padding
+    mat_view_one!(s, &site, $M, $n, $lay, $lines, $V, $as_slice, $as_mut_slice, $as_ptr, $as_mut_ptr, (), "()", |_x: u32| ());
+    mat_view_one!(s, &site, $M, $n, $lay, $lines, $V, $as_slice, $as_mut_slice, $as_ptr, $as_mut_ptr, (u8, u32), "(u8,u32)", |x: u32| (x as u8, !x));
     { s.eval(true);
       let t = fresh(NN); let mut it = t.into_iter();
       let mut m = $lay::$M::<Tok> { $lines: <$V<$V<Tok>> as VecN<$V<Tok>>>::from_elems((0..N).map(|_| <$V<Tok> as VecN<Tok>>::from_elems((0..N).map(|_| it.next().unwrap()).collect())).collect()) };
@@ -916,12 +997,208 @@ macro_rules! mat_views { ($s:expr, $M:ident, $n:expr, $lay:ident, $layname:expr,
     } let s_: &Section = $s; guarded(s_, format!("mat_views! {} {} {}", stringify!($V), stringify!($M), stringify!($lay)), || go(s_));
 }} }
 
+// =====================================================================================================
+// Additions after the second (adversarial) audit (out/AUDIT2.md)
+// =====================================================================================================
+
+// ---- plain-data element types --------------------------------------------------------------------------
+// Every section above runs the consuming iterator and the by-value conversions over ownership-tracked (non-Copy) elements only. A
+// fast path keyed on `mem::needs_drop::<T>()`, on `size_of::<T>()`, or on "the default value is all zero bits" is never taken for
+// them. The statement says "ALSO for element types that are not Copy": plain data is in scope, and there the oracle is the value.
+/// Copy element without Drop; `of(i)` is lane-distinct (i < 255) and never the default value.
+trait Plain: Copy + PartialEq + Debug + Default + 'static { const NAME: &'static str; fn of(i: u32) -> Self; }
+impl Plain for u8 { const NAME: &'static str = "u8"; fn of(i: u32) -> u8 { (i % 255) as u8 + 1 } }
+impl Plain for u32 { const NAME: &'static str = "u32"; fn of(i: u32) -> u32 { (i + 1) * 0x0101_0101 } }
+impl Plain for f64 { const NAME: &'static str = "f64"; fn of(i: u32) -> f64 { -(i as f64) - 0.5 } }
+impl Plain for u128 { const NAME: &'static str = "u128"; fn of(i: u32) -> u128 { ((i as u128 + 1) << 100) | i as u128 } }
+impl Plain for [u8; 3] { const NAME: &'static str = "[u8;3]"; fn of(i: u32) -> [u8; 3] { [i as u8 + 1, !(i as u8), 7] } }
+impl Plain for (u8, u32) { const NAME: &'static str = "(u8,u32): padded"; fn of(i: u32) -> (u8, u32) { (i as u8 + 1, !i) } }
+/// plain data whose `Default` is NOT the all-zero bit pattern ("elements are initialized to their default values")
+#[derive(Clone, Copy, PartialEq, Debug)]
+struct Nz(u32);
+impl Default for Nz { fn default() -> Nz { Nz(0xD5D5_0007) } }
+impl Plain for Nz { const NAME: &'static str = "Nz: Copy, default != zero bits"; fn of(i: u32) -> Nz { Nz(i + 1) } }
+
+/// The consuming iterator over plain data, every cursor state (f,b): the canonical pulls by value, length reports, Debug; then, each
+/// on a freshly rebuilt iterator in that state: drain from the front / from the back / alternating (bounded loops, the reference
+/// decides how many pulls), nth and nth_back for k in {0,1,3,usize::MAX} followed by draining the rest, rev().collect(), fold, rfold,
+/// count, last, and collect() back into the same vector type (live range first, default tail).
+fn plain_iter<V, E>(s: &Section)
+where E: Plain, V: VecN<E> + IntoIterator<Item = E> + FromIterator<E> + 'static, V::IntoIter: DoubleEndedIterator + ExactSizeIterator + Debug {
+    let n = V::N;
+    let site = format!("{}::IntoIter<{}>", V::NAME, E::NAME);
+    let vals: Vec<E> = (0..n as u32).map(E::of).collect();
+    for (f, b) in cursor_states(n, true) {
+        s.eval(f + b > 0);
+        let w = (f + b) as u64;
+        let rem = n - f - b;
+        let live: Vec<E> = vals[f..n - b].to_vec();
+        let rlive: Vec<E> = live.iter().rev().copied().collect();
+        let r = catch(|| {
+            let v = |class: &str, what: String| s.violation_w(&site, class, json!({"state(front,back pulls)": [f, b], "what": what}), w);
+            let mk = |check: bool| -> Option<V::IntoIter> {
+                let mut it = V::from_elems(vals.clone()).into_iter();
+                for i in 0..f { let g = it.next(); if check && g != Some(vals[i]) { v("wrong-element-from-next", format!("pull #{} from the front gave {:?}, want {:?}", i, g, vals[i])); return None; } }
+                for i in 0..b { let g = it.next_back(); if check && g != Some(vals[n - 1 - i]) { v("wrong-element-from-next_back", format!("pull #{} from the back gave {:?}, want {:?}", i, g, vals[n - 1 - i])); return None; } }
+                Some(it)
+            };
+            let Some(mut it) = mk(true) else { return };
+            if it.len() != rem || it.size_hint() != (rem, Some(rem)) { v("wrong-length-report", format!("remaining {}, len() = {}, size_hint() = {:?}", rem, it.len(), it.size_hint())); }
+            let _ = format!("{:?} {:#?}", it, it);
+            // drain from the front
+            let mut got = Vec::new(); for _ in 0..rem { match it.next() { Some(x) => got.push(x), None => break } }
+            if got != live { v("wrong-element-from-next", format!("draining from the front gave {:?}, want {:?}", got, live)); }
+            if it.len() != 0 || it.next().is_some() || it.next_back().is_some() || it.next().is_some() || it.len() != 0 { v("wrong-element-from-next", "the drained iterator still yields or reports a non-zero length".into()); }
+            drop(it);
+            // drain from the back
+            let mut it = mk(false).unwrap();
+            let mut got = Vec::new(); for i in 0..rem { match it.next_back() { Some(x) => got.push(x), None => break } if it.len() != rem - 1 - i { v("wrong-length-report", format!("after {} pulls from the back of {}: len() = {}", i + 1, rem, it.len())); break; } }
+            if got != rlive { v("wrong-element-from-next_back", format!("draining from the back gave {:?}, want {:?}", got, rlive)); }
+            if it.next_back().is_some() || it.next().is_some() { v("wrong-element-from-next_back", "the drained iterator still yields".into()); }
+            drop(it);
+            // alternating ends
+            let mut it = mk(false).unwrap();
+            let (mut lo, mut hi, mut ok) = (0usize, rem, true);
+            for i in 0..rem { let (g, want) = if i % 2 == 0 { lo += 1; (it.next(), live[lo - 1]) } else { hi -= 1; (it.next_back(), live[hi]) }; if g != Some(want) { ok = false; v("wrong-element-from-next", format!("alternating pull #{} gave {:?}, want {:?}", i, g, want)); break; } }
+            if ok && (it.next().is_some() || it.len() != 0) { v("wrong-element-from-next", "the iterator drained from both ends still yields".into()); }
+            drop(it);
+            // nth / nth_back, then the rest
+            for k in [0usize, 1, 3, usize::MAX] { for front in [true, false] {
+                let mut it = mk(false).unwrap();
+                let src = if front { &live } else { &rlive };
+                let g = if front { it.nth(k) } else { it.nth_back(k) };
+                let want = src.get(k).copied();
+                let name = if front { "nth" } else { "nth_back" };
+                if g != want { v("wrong-element-from-nth", format!("{}({}) on {} remaining gave {:?}, want {:?}", name, k, rem, g, want)); continue; }
+                let rest: Vec<E> = if k < rem { src[k + 1..].to_vec() } else { vec![] };
+                if it.len() != rest.len() { v("wrong-length-report", format!("after {}({}) on {} remaining: len() = {}, want {}", name, k, rem, it.len(), rest.len())); continue; }
+                let mut got = Vec::new(); for _ in 0..rest.len() { match if front { it.next() } else { it.next_back() } { Some(x) => got.push(x), None => break } }
+                if got != rest || it.next().is_some() { v("wrong-element-from-nth", format!("after {}({}) the rest is {:?}, want {:?}", name, k, got, rest)); }
+            } }
+            // consuming adaptors
+            let g: Vec<E> = mk(false).unwrap().rev().collect(); if g != rlive { v("wrong-order-from-rev-collect", format!("rev().collect() gave {:?}, want {:?}", g, rlive)); }
+            let g: Vec<E> = mk(false).unwrap().fold(Vec::new(), |mut a, x| { a.push(x); a }); if g != live { v("wrong-order-from-fold", format!("fold gave {:?}, want {:?}", g, live)); }
+            let g: Vec<E> = mk(false).unwrap().rfold(Vec::new(), |mut a, x| { a.push(x); a }); if g != rlive { v("wrong-order-from-fold", format!("rfold gave {:?}, want {:?}", g, rlive)); }
+            let c = mk(false).unwrap().count(); if c != rem { v("count-disagrees-with-remaining", format!("count() = {}, remaining {}", c, rem)); }
+            let l = mk(false).unwrap().last(); if l != live.last().copied() { v("wrong-element-from-last", format!("last() = {:?}, want {:?}", l, live.last())); }
+            // back into the same vector type
+            let back: V = mk(false).unwrap().collect();
+            let e = back.into_elems();
+            if e[..rem] != live[..] { v("wrong-order", format!("collect() back into {} gave {:?}, want the prefix {:?}", V::NAME, e, live)); }
+            else if e[rem..].iter().any(|x| *x != E::default()) { v("tail-not-default", format!("collect() back into {} gave {:?}, want {:?} after the first {} lanes", V::NAME, e, E::default(), rem)); }
+        });
+        if let Err(c) = r { s.violation_w(&site, "panic", json!({"state(front,back pulls)": [f, b], "what": format!("{:?}", c)}), w); }
+    }
+    s.class(E::NAME);
+}
+
+/// By-value conversions of one vector type over one plain-data element type.
+macro_rules! plain_conv { ($s:expr, $V:ident, $n:expr, $E:ty) => {{
+    #[inline(never)] fn go(s: &Section) { const N: usize = $n; type E = $E; let name = <$V<E> as VecN<E>>::NAME; let el = <E as Plain>::NAME;
+    let vals: Vec<E> = (0..N as u32).map(<E as Plain>::of).collect();
+    { let site = format!("From<[T;{}]> for {}<{}>", N, name, el); s.eval(true);
+      let a: [E; N] = std::array::from_fn(|i| <E as Plain>::of(i as u32));
+      let e = <$V<E> as VecN<E>>::into_elems($V::from(a)); if e != vals { s.violation(&site, "wrong-order", json!({"got": format!("{:?}", e), "want": format!("{:?}", vals)})); } }
+    { let site = format!("{}<{}>::into_array", name, el); s.eval(true);
+      let a = <$V<E> as VecN<E>>::from_elems(vals.clone()).into_array(); if a[..] != vals[..] { s.violation(&site, "wrong-order", json!({"got": format!("{:?}", a), "want": format!("{:?}", vals)})); } }
+    { let site = format!("{}<{}>: slice views", name, el); s.eval(true);
+      let mut v = <$V<E> as VecN<E>>::from_elems(vals.clone());
+      if v.as_slice() != &vals[..] || v.as_mut_slice() != &vals[..] || !v.iter().eq(vals.iter()) { s.violation(&site, "wrong-order", json!({"got": format!("{:?}", v.as_slice())})); } }
+    for len in 0..=N + 2 {
+        let want: Vec<E> = (0..N).map(|i| if i < len { <E as Plain>::of(i as u32) } else { E::default() }).collect();
+        let src: Vec<E> = (0..len as u32).map(<E as Plain>::of).collect();
+        let cls = |got: &Vec<E>| if got[..len.min(N)] != want[..len.min(N)] { "wrong-order" } else { "tail-not-default" };
+        { let site = format!("FromIterator for {}<{}>", name, el); s.eval(len != N);
+          let got = <$V<E> as VecN<E>>::into_elems(src.iter().copied().collect::<$V<E>>());
+          if got != want { s.violation_w(&site, cls(&got), json!({"iterator_length": len, "got": format!("{:?}", got), "want": format!("{:?}", want)}), len as u64); }
+          let got = <$V<E> as VecN<E>>::into_elems(Lying { inner: src.iter().copied(), hint: (0, None) }.collect::<$V<E>>());
+          if got != want { s.violation_w(&site, cls(&got), json!({"iterator_length": len, "size_hint": "(0, None)", "got": format!("{:?}", got), "want": format!("{:?}", want)}), len as u64); } }
+        { let site = format!("{}<{}>::from_slice", name, el); s.eval(len != N);
+          let got = <$V<E> as VecN<E>>::into_elems($V::<E>::from_slice(&src));
+          if got != want { s.violation_w(&site, cls(&got), json!({"slice_length": len, "got": format!("{:?}", got), "want": format!("{:?}", want)}), len as u64); } }
+    }
+    } let s_: &Section = $s; guarded(s_, format!("plain_conv! {} {}", stringify!($V), stringify!($E)), || go(s_));
+}} }
+
+/// The eight by-value matrix conversions over one plain-data element type; element (i,j) = of(i*N + j) (not symmetric).
+macro_rules! plain_mat { ($s:expr, $M:ident, $n:expr, $lay:ident, $layname:expr, $lines:ident, $V:ident, $E:ty) => {{
+    #[inline(never)] fn go(s: &Section) { const N: usize = $n; const NN: usize = N * N; type E = $E; let el = <E as Plain>::NAME;
+    let name = format!("Mat{}<{}><{}>", N, $layname, el);
+    let at = |i: usize, j: usize| <E as Plain>::of((i * N + j) as u32);
+    let build = || -> $lay::$M<E> { $lay::$M { $lines: <$V<$V<E>> as VecN<$V<E>>>::from_elems((0..N).map(|k| <$V<E> as VecN<E>>::from_elems((0..N).map(|l| if $layname == "row" { at(k, l) } else { at(l, k) }).collect())).collect()) } };
+    let decode = |m: $lay::$M<E>| -> Vec<Vec<E>> { // [i][j]
+        let lines: Vec<Vec<E>> = <$V<$V<E>> as VecN<$V<E>>>::into_elems(m.$lines).into_iter().map(|l| <$V<E> as VecN<E>>::into_elems(l)).collect();
+        (0..N).map(|i| (0..N).map(|j| if $layname == "row" { lines[i][j] } else { lines[j][i] }).collect()).collect()
+    };
+    let flat: [E; NN] = std::array::from_fn(|x| <E as Plain>::of(x as u32));
+    let nested: [[E; N]; N] = std::array::from_fn(|a| std::array::from_fn(|b| <E as Plain>::of((a * N + b) as u32)));
+    let want_rows: Vec<E> = flat.to_vec();
+    let want_cols: Vec<E> = (0..N).flat_map(|j| (0..N).map(move |i| (i, j))).map(|(i, j)| at(i, j)).collect();
+    let want_ij: Vec<Vec<E>> = (0..N).map(|i| (0..N).map(|j| at(i, j)).collect()).collect();
+    let want_t: Vec<Vec<E>> = (0..N).map(|i| (0..N).map(|j| at(j, i)).collect()).collect();
+    let bad = |f: &str, got: String| s.violation_w(&format!("{}::{}", name, f), "wrong-order", json!({"got": got, "element (i,j) is": "of(i*N+j)"}), NN as u64);
+    s.evals(8, 8);
+    { let a = build().into_row_array(); if a[..] != want_rows[..] { bad("into_row_array", format!("{:?}", a)); } }
+    { let a = build().into_col_array(); if a[..] != want_cols[..] { bad("into_col_array", format!("{:?}", a)); } }
+    { let a = build().into_row_arrays(); let g: Vec<E> = a.iter().flatten().copied().collect(); if g != want_rows { bad("into_row_arrays", format!("{:?}", a)); } }
+    { let a = build().into_col_arrays(); let g: Vec<E> = a.iter().flatten().copied().collect(); if g != want_cols { bad("into_col_arrays", format!("{:?}", a)); } }
+    { let g = decode($lay::$M::from_row_array(flat)); if g != want_ij { bad("from_row_array", format!("{:?}", g)); } }
+    { let g = decode($lay::$M::from_col_array(flat)); if g != want_t { bad("from_col_array", format!("{:?}", g)); } }
+    { let g = decode($lay::$M::from_row_arrays(nested)); if g != want_ij { bad("from_row_arrays", format!("{:?}", g)); } }
+    { let g = decode($lay::$M::from_col_arrays(nested)); if g != want_t { bad("from_col_arrays", format!("{:?}", g)); } }
+    // round trips through the other orientation (a call SEQUENCE: what one conversion wrote is what the next one reads)
+    s.evals(2, 2);
+    { let g = decode($lay::$M::from_col_arrays(build().into_col_arrays())); if g != want_ij { bad("from_col_arrays(into_col_arrays)", format!("{:?}", g)); } }
+    { let g = decode($lay::$M::from_row_array(build().into_col_array())); if g != want_t { bad("from_row_array(into_col_array)", format!("{:?}", g)); } }
+    s.class(&format!("Mat{}<{}>", N, $layname));
+    } let s_: &Section = $s; guarded(s_, format!("plain_mat! {} {} {}", stringify!($M), stringify!($lay), stringify!($E)), || go(s_));
+}} }
+
+/// A consuming iterator of vector type A in every cursor state collected into ANOTHER vector type B (shorter or longer): the first
+/// min(remaining, N_B) live elements land in order, the tail is fresh defaults, the elements that do not fit are dropped exactly once
+/// (by A's iterator, which `from_iter` owns), nothing is duplicated or leaked.
+fn collect_across<A, B>(s: &Section)
+where A: VecN<Tok> + IntoIterator<Item = Tok> + 'static, A::IntoIter: DoubleEndedIterator + ExactSizeIterator, B: VecN<Tok> + FromIterator<Tok> + 'static {
+    let (na, nb) = (A::N, B::N);
+    let site = format!("{}::into_iter() .. collect::<{}>()", A::NAME, B::NAME);
+    for (f, b) in cursor_states(na, na <= 8 || s.thorough()) {
+        for rev in [false, true] {
+            s.eval(true);
+            let w = (f + b) as u64;
+            let r = catch(|| {
+                tok::reset();
+                let v = A::from_elems((0..na).map(|_| Tok::new()).collect());
+                let mut it = v.into_iter();
+                let mut held = Vec::new();
+                for _ in 0..f { held.extend(it.next()); }
+                for _ in 0..b { held.extend(it.next_back()); }
+                for t in &held { tok::mark_yielded(t.id); }
+                let mut live: Vec<u32> = (f as u32..(na - b) as u32).collect(); if rev { live.reverse(); }
+                let out: B = if rev { it.rev().collect() } else { it.collect() };
+                let fit = live.len().min(nb);
+                let mut early: Vec<u32> = tok::dropped_ids().into_iter().filter(|&id| (id as usize) < na).collect(); early.sort();
+                let mut excess: Vec<u32> = live[fit..].to_vec(); excess.sort();
+                if early != excess { s.violation_w(&site, if early.len() > excess.len() { "element-dropped-during-conversion" } else { "element-leaked" }, json!({"state": [f, b], "reversed": rev, "dropped_by_the_conversion": early, "elements_that_do_not_fit": excess}), w); }
+                let e = out.into_elems(); let got = ids(&e);
+                if got[..fit] != live[..fit] { s.violation_w(&site, "wrong-order", json!({"state": [f, b], "reversed": rev, "got": got, "want_prefix": &live[..fit]}), w); }
+                if got[fit..].iter().any(|&id| (id as usize) < na) { s.violation_w(&site, "tail-not-default", json!({"state": [f, b], "reversed": rev, "got": got}), w); }
+                if held.iter().any(|t| tok::state(t.id) == St::Dropped) { s.violation_w(&site, "drop-drops-yielded-element", json!({"state": [f, b], "reversed": rev}), w); }
+                drop(e); drop(held);
+                if let Some(fl) = tok::faults().into_iter().next() { s.violation_w(&site, "ledger-fault", json!({"state": [f, b], "reversed": rev, "what": fl}), w); }
+                if tok::states().iter().any(|x| *x != St::Dropped) { s.violation_w(&site, "element-leaked", json!({"state": [f, b], "reversed": rev}), w); }
+            });
+            if let Err(c) = r { s.violation_w(&site, "panic", json!({"state": [f, b], "reversed": rev, "what": format!("{:?}", c)}), w); }
+        }
+    }
+    s.class("collect across vector types");
+}
+
 fn main() {
     let rep = Report::start("C18", "model_checking");
     let mut tot = McTotals { states: 0, transitions: 0, max_depth: 0, samples: Vec::new() };
 
     rep.section("consuming iterator: every reachable (front, back) state and transition, per vector type",
-        "stateright BFS (one worker, so that the recorded depths stay deterministic now that nth() creates shortcuts; run twice, counts compared) over states (f,b) = elements pulled from the front/back, actions {next, next_back, len+size_hint, observe ({:?}, {:#?}, ==, !=, Hash with the ledger watching), drop, nth(k) and nth_back(k) for k in {1,3} (thorough: every k in 1..=N; the skipped elements must be dropped once by the iterator and never handed out, the rest is drained against the reference), count(), last(), rev().collect() (terminal: lead to the dropped twin)}; a panic of the real code is a violation of class `panic`; every transition rebuilds a REAL vek IntoIter over fresh ownership tokens, replays the canonical path, applies the action and compares with a reference deque and the drop ledger; the search runs to its fixpoint ((N+1)(N+2)/2 live states + their dropped twins, (8 + 2|K|) transitions per live state, both counts checked), no depth cap; non-trivial: all transitions", true, false, |s| {
+        "stateright BFS (one worker, so that the recorded depths stay deterministic now that nth() creates shortcuts; run twice, counts compared) over states (f,b) = elements pulled from the front/back, actions {next, next_back, len+size_hint, observe ({:?}, {:#?}, ==, !=, Hash with the ledger watching), drop, nth(k) and nth_back(k) for k in {1,3} (thorough: every k in 1..=N; the skipped elements must be dropped once by the iterator and never handed out, the rest is drained against the reference), count(), last(), rev().collect() (terminal: lead to the dropped twin); second audit: skip counts also 0 and usize::MAX, fold and rfold called directly and with a closure that panics on its second element (the iterator is dropped by unwinding mid-traversal: the element in the closure's hands is the closure's, the rest is dropped once by the iterator), and after every pull beyond exhaustion the other end, the same end, len/size_hint and the observation set are probed twice}; a panic of the real code is a violation of class `panic`; every transition rebuilds a REAL vek IntoIter over fresh ownership tokens, replays the canonical path, applies the action and compares with a reference deque and the drop ledger; the search runs to its fixpoint ((N+1)(N+2)/2 live states + their dropped twins, (12 + 2|K|) transitions per live state, both counts checked), no depth cap; non-trivial: all transitions", true, false, |s| {
         s.require_classes(&["Vec2", "Vec3", "Vec4", "Vec8", "Vec16", "Vec32", "Vec64", "Extent2", "Extent3", "Rgb", "Rgba", "Uv", "Uvw"]);
         for_all_vecs!(V => { model_check::<V<Tok>>(s, &mut tot); });
         for smp in &tot.samples { s.sample(smp.clone()); }
@@ -987,7 +1264,7 @@ fn main() {
     });
 
     rep.section("slice views entry by entry against the field addresses; slices, tuples and iterators as sources",
-        "for each of the 13 vector types x element types {u8, u32, u64, u128, [u8;3], (), Tok}: the twelve views as_slice, Deref, AsRef<[T]>, Borrow<[T]>, IntoIterator for &V, iter(), as_mut_slice, DerefMut, AsMut<[T]>, BorrowMut<[T]>, IntoIterator for &mut V, iter_mut() - the address of EVERY entry equals the address of the public field in declaration order (so: N entries, own storage, order), AsRef<Self>/AsMut<Self> are the value itself; for the Copy elements a write of lane-distinct values through each of the six mutable views on every lane, read back through the fields, and the fields read back through the shared views; from_slice for every slice length 0..N+2 (prefix in order, default tail); From<(smaller vector, scalar)> for the 5 pairs; map2/map3; a consuming iterator in every cursor state collected back (and reversed) into the same vector type; FromIterator from sources with lying size_hints for every length, and from a source that panics after k < N elements (no double drop while unwinding); Sum/Product of 0..3 vectors of a non-Copy numeric element; for the 6 matrix types: as_{row,col}_slice / as_mut_{row,col}_slice / as_{row,col}_ptr / as_mut_{row,col}_ptr entry addresses = field addresses in storage order for {u8,u32,u128,[u8;3],Tok}, write-through on every entry, a swap through the mutable view followed by map_rows/map_cols with the ledger; non-trivial: all but the honest-length cases", true, false, |s| {
+        "for each of the 13 vector types x element types {u8, u32, u64, u128, [u8;3], (), Tok}: the twelve views as_slice, Deref, AsRef<[T]>, Borrow<[T]>, IntoIterator for &V, iter(), as_mut_slice, DerefMut, AsMut<[T]>, BorrowMut<[T]>, IntoIterator for &mut V, iter_mut() - the address of EVERY entry equals the address of the public field in declaration order (so: N entries, own storage, order), AsRef<Self>/AsMut<Self> are the value itself; for the Copy elements a write of lane-distinct values through each of the six mutable views on every lane, read back through the fields, and the fields read back through the shared views; from_slice for every slice length 0..N+2 (prefix in order, default tail); From<(smaller vector, scalar)> for the 5 pairs; map2/map3; a consuming iterator in every cursor state collected back (and reversed) into the same vector type; FromIterator from sources with lying size_hints for every length (4 far-off lies + exact / lower-only / upper-only hints at 1, len-1, len, len+1, N-1, N, N+1, 2N), and from a source that panics after k < N elements (no double drop while unwinding); Sum/Product of 0..3 vectors of a non-Copy numeric element; for the 6 matrix types: as_{row,col}_slice / as_mut_{row,col}_slice / as_{row,col}_ptr / as_mut_{row,col}_ptr entry addresses = field addresses in storage order for {u8,u32,u128,[u8;3],(),(u8,u32),Tok}, write-through on every entry, a swap through the mutable view followed by map_rows/map_cols with the ledger; non-trivial: all but the honest-length cases", true, false, |s| {
         s.require_classes(&["Vec2", "Vec3", "Vec4", "Vec8", "Vec16", "Vec32", "Vec64", "Extent2", "Extent3", "Rgb", "Rgba", "Uv", "Uvw", "from_slice", "From<(smaller vector, scalar)>", "map2/map3", "into_iter..collect", "hostile sources", "Sum/Product", "Mat2<row>", "Mat2<col>", "Mat3<row>", "Mat3<col>", "Mat4<row>", "Mat4<col>"]);
         macro_rules! more_for_vec { ($V:ident, $n:expr) => {{
             views_all!(s, $V, $n); from_slice!(s, $V, $n); conv_mapn!(s, $V, $n);
@@ -1005,6 +1282,31 @@ fn main() {
         s.sample(json!({"call": "Vec64<u128>: (&mut v).into_iter()", "want": "64 entries, entry i at the address of field .i; writing 64 distinct values through it changes exactly those fields"}));
         s.sample(json!({"call": "Vec4::<u32>::from_slice(&[7, 10])", "want": [7, 10, 0, 0]}));
         s.sample(json!({"call": "Vec4<Tok>: into_iter(), next(), next_back(), rev().collect::<Vec4<Tok>>()", "want": "ids [2, 1, fresh, fresh]; 0 and 3 held by the caller; every token dropped once"}));
+    });
+
+    rep.section("second audit: plain-data (Copy) element types by value; iterators collected across vector types",
+        "the element type ranges over 7 plain-data types without Drop: u8, u32, f64, u128, [u8;3], (u8,u32) with padding, and Nz (Copy, Default = 0xD5D50007, i.e. NOT the all-zero bit pattern); values are lane-distinct and never the default, the oracle is the VALUE (struct-literal build, field decode). For each of the 13 vector types x 7 element types: the consuming iterator in EVERY cursor state (f,b) of every N (both tiers): canonical pulls, len/size_hint, Debug, then on rebuilt iterators in that state: drain front / back / alternating with bounded loops and a pull beyond exhaustion from both ends, nth and nth_back for k in {0,1,3,usize::MAX} + the rest, rev().collect(), fold, rfold, count, last, collect() back (default tail); From<[T;N]>, into_array, slice values, collect() and from_slice for EVERY length 0..N+2 (also behind a (0,None) size hint) with the tail compared to T::default(). For the 6 matrix types x 7 element types: the eight {into,from}_{row,col}_array(s) by value and two round trips through the other orientation. With ownership tokens: a consuming iterator of type A in every cursor state, forward and reversed, collected into a DIFFERENT vector type B for 14 ordered pairs (shorter and longer): prefix in order, default tail, the elements that do not fit dropped exactly once, ledger balanced. non-trivial: at least one pull / length != N / all conversions", true, false, |s| {
+        s.require_classes(&["u8", "u32", "f64", "u128", "[u8;3]", "(u8,u32): padded", "Nz: Copy, default != zero bits", "Mat2<row>", "Mat2<col>", "Mat3<row>", "Mat3<col>", "Mat4<row>", "Mat4<col>", "collect across vector types"]);
+        macro_rules! plain_for_vec { ($V:ident, $n:expr) => {{
+            plain_iter::<$V<u8>, u8>(s); plain_iter::<$V<u32>, u32>(s); plain_iter::<$V<f64>, f64>(s); plain_iter::<$V<u128>, u128>(s); plain_iter::<$V<[u8; 3]>, [u8; 3]>(s); plain_iter::<$V<(u8, u32)>, (u8, u32)>(s); plain_iter::<$V<Nz>, Nz>(s);
+            plain_conv!(s, $V, $n, u8); plain_conv!(s, $V, $n, u32); plain_conv!(s, $V, $n, f64); plain_conv!(s, $V, $n, u128); plain_conv!(s, $V, $n, [u8; 3]); plain_conv!(s, $V, $n, (u8, u32)); plain_conv!(s, $V, $n, Nz);
+        }} }
+        plain_for_vec!(Vec2, 2); plain_for_vec!(Vec3, 3); plain_for_vec!(Vec4, 4); plain_for_vec!(Vec8, 8); plain_for_vec!(Vec16, 16); plain_for_vec!(Vec32, 32); plain_for_vec!(Vec64, 64);
+        plain_for_vec!(Extent2, 2); plain_for_vec!(Extent3, 3); plain_for_vec!(Rgb, 3); plain_for_vec!(Rgba, 4); plain_for_vec!(Uv, 2); plain_for_vec!(Uvw, 3);
+        macro_rules! plain_for_mat { ($M:ident, $n:expr, $lay:ident, $layname:expr, $lines:ident, $V:ident) => {{
+            plain_mat!(s, $M, $n, $lay, $layname, $lines, $V, u8); plain_mat!(s, $M, $n, $lay, $layname, $lines, $V, u32); plain_mat!(s, $M, $n, $lay, $layname, $lines, $V, f64); plain_mat!(s, $M, $n, $lay, $layname, $lines, $V, u128);
+            plain_mat!(s, $M, $n, $lay, $layname, $lines, $V, [u8; 3]); plain_mat!(s, $M, $n, $lay, $layname, $lines, $V, (u8, u32)); plain_mat!(s, $M, $n, $lay, $layname, $lines, $V, Nz);
+        }} }
+        plain_for_mat!(Mat2, 2, rm, "row", rows, Vec2); plain_for_mat!(Mat2, 2, cm, "col", cols, Vec2);
+        plain_for_mat!(Mat3, 3, rm, "row", rows, Vec3); plain_for_mat!(Mat3, 3, cm, "col", cols, Vec3);
+        plain_for_mat!(Mat4, 4, rm, "row", rows, Vec4); plain_for_mat!(Mat4, 4, cm, "col", cols, Vec4);
+        collect_across::<Vec4<Tok>, Vec2<Tok>>(s); collect_across::<Vec2<Tok>, Vec4<Tok>>(s); collect_across::<Vec3<Tok>, Rgba<Tok>>(s); collect_across::<Rgba<Tok>, Rgb<Tok>>(s);
+        collect_across::<Vec8<Tok>, Vec3<Tok>>(s); collect_across::<Vec3<Tok>, Vec8<Tok>>(s); collect_across::<Vec64<Tok>, Vec16<Tok>>(s); collect_across::<Vec16<Tok>, Vec64<Tok>>(s);
+        collect_across::<Vec32<Tok>, Extent2<Tok>>(s); collect_across::<Uv<Tok>, Vec32<Tok>>(s); collect_across::<Extent3<Tok>, Uvw<Tok>>(s); collect_across::<Uvw<Tok>, Extent3<Tok>>(s);
+        collect_across::<Extent2<Tok>, Uv<Tok>>(s); collect_across::<Rgb<Tok>, Extent3<Tok>>(s);
+        s.sample(json!({"call": "Vec4::<Nz>::from_slice(&[Nz(1), Nz(2)])", "want": "[Nz(1), Nz(2), Nz(0xD5D50007), Nz(0xD5D50007)] (the tail is T::default(), not zero bits)"}));
+        s.sample(json!({"call": "column_major::Mat3::<u32>::from_row_array([of(0), .., of(8)]).cols", "want": "element (i,j) = of(3i+j), i.e. cols.x = (of(0), of(3), of(6))"}));
+        s.sample(json!({"call": "Vec8<Tok>: into_iter(), next(), next_back(), collect::<Vec3<Tok>>()", "want": "ids [1,2,3]; 4,5,6 dropped once by the conversion; 0 and 7 held by the caller"}));
     });
 
     let lk = json!({"states": tot.states, "transitions": tot.transitions, "traces_validated_against_impl": tot.transitions, "max_depth": tot.max_depth,
